@@ -168,14 +168,26 @@ func ToGNMITypedValue(v *sdcpb.TypedValue) *gnmi.TypedValue {
 		return &gnmi.TypedValue{
 			Value: &gnmi.TypedValue_BytesVal{BytesVal: v.GetBytesVal()},
 		}
-	// case *sdcpb.TypedValue_DecimalVal:
-	// 	return &gnmi.TypedValue{
-	// 		Value: &gnmi.TypedValue_DecimalVal{DecimalVal: v.GetDecimalVal()},
-	// 	}
-	// case *sdcpb.TypedValue_FloatVal:
-	// 	return &gnmi.TypedValue{
-	// 		Value: &gnmi.TypedValue_FloatVal{FloatVal: v.GetFloatVal()},
-	// 	}
+	case *sdcpb.TypedValue_DecimalVal:
+		return &gnmi.TypedValue{
+			Value: &gnmi.TypedValue_DecimalVal{DecimalVal: &gnmi.Decimal64{
+				Digits:    v.GetDecimalVal().GetDigits(),
+				Precision: v.GetDecimalVal().GetPrecision(),
+			}},
+		}
+	case *sdcpb.TypedValue_FloatVal:
+		return &gnmi.TypedValue{
+			Value: &gnmi.TypedValue_FloatVal{FloatVal: v.GetFloatVal()},
+		}
+	case *sdcpb.TypedValue_DoubleVal:
+		return &gnmi.TypedValue{
+			Value: &gnmi.TypedValue_DoubleVal{DoubleVal: v.GetDoubleVal()},
+		}
+	case *sdcpb.TypedValue_EmptyVal:
+		// gNMI has no scalar for the YANG empty type, a set leaf of type empty is carried as boolean true
+		return &gnmi.TypedValue{
+			Value: &gnmi.TypedValue_BoolVal{BoolVal: true},
+		}
 	case *sdcpb.TypedValue_IntVal:
 		return &gnmi.TypedValue{
 			Value: &gnmi.TypedValue_IntVal{IntVal: v.GetIntVal()},
